@@ -11,11 +11,12 @@ import (
 // code. A CR at the end of a line is the documented limitation and is not in
 // any multi-entry alphabet.
 var (
-	vfSigmaCore = []string{"a", "b", "", " ", "---", "/-/-/-/", "----", "[TestA - 1]", "[TestA - 2]", "\xff"}
+	vfSigmaCore = []string{"a", "b", "", " ", "---", "/-/-/-/", "----", "[TestA - 1]", "[TestA - 2]", "\xff", "$1", "%d"}
 	vfSigmaFull = []string{"a", "b", "", " ", "\t", "---", "/-/-/-/", "----", "--- ", " ---",
 		"[TestA - 1]", "[TestA - 2]", "[TestA - 10]", "[TestB - 1]", "[Test", "]",
-		"\xff", "\xfe", "a\xffb", "é", "a\rb", "- x", "+ x", "  x", "@@ -1 +1 @@"}
-	vfSigmaSmall = []string{"a", "", "---", "/-/-/-/", "[TestA - 2]"}
+		"\xff", "\xfe", "a\xffb", "é", "a\rb", "- x", "+ x", "  x", "@@ -1 +1 @@",
+		"$1", "${a}", "$$", "%d", "%s", "%", "\\1", "\\"}
+	vfSigmaSmall = []string{"a", "", "---", "/-/-/-/", "[TestA - 2]", "$1"}
 )
 
 // vfBodies enumerates every body of 0..maxLines lines over sigma, each
@@ -82,6 +83,8 @@ func vfSpecial(s string) bool {
 		case strings.ContainsAny(l, "\xff\xfe\r"):
 			return true
 		case len(l) > 60000:
+			return true
+		case strings.ContainsAny(l, "$%\\"):
 			return true
 		}
 	}
